@@ -542,11 +542,22 @@ pub fn read_case_file(p: &Path) -> Result<CaseFile, String> {
 
 /// Replay one case file against its oracle. Returns Ok(description) or Err(message).
 pub fn replay(prop: &Property, cf: &CaseFile, verbose: bool) -> Result<(), String> {
-    let sub = prop
-        .subs
-        .iter()
-        .find(|s| s.name == cf.subcheck)
-        .ok_or_else(|| format!("unknown subcheck {} for {}", cf.subcheck, prop.id))?;
+    let sub = match prop.subs.iter().find(|s| s.name == cf.subcheck) {
+        Some(s) => s,
+        None => {
+            // a failure of the non-generated extra step: re-run that step
+            if let Some(extra) = prop.extra {
+                let e = extra(Tier::Quick, 0);
+                if e.name == cf.subcheck {
+                    return match e.failure {
+                        Some((m, _)) => Err(m),
+                        None => Ok(()),
+                    };
+                }
+            }
+            return Err(format!("unknown subcheck {} for {}", cf.subcheck, prop.id));
+        }
+    };
     let mut obs = Obs::default();
     obs.want_desc = true;
     obs.strict = true;
